@@ -18,6 +18,10 @@ fn operand(j: &J) -> Result<Value, String> {
 pub fn build(kind: &str, ops: &[Expr], case: &J) -> Result<Expr, String> {
     Ok(match kind {
         "if" => Expr::iif(ops[0].clone(), Expr::value(1), Expr::value(2)),
+        // the same condition over other branch pairs: the two boolean literals (either way round), identical branches
+        "if:tf" => Expr::iif(ops[0].clone(), Expr::value(true), Expr::value(false)),
+        "if:ft" => Expr::iif(ops[0].clone(), Expr::value(false), Expr::value(true)),
+        "if:same" => Expr::iif(ops[0].clone(), Expr::value(7), Expr::value(7)),
         "index" => Expr::index(ops[0].clone(), index_from_model(&case["a"][1])?),
         k if UNARY.contains(&k) => unary(k, ops[0].clone()).unwrap(),
         k if BINARY.contains(&k) => binary(k, ops[0].clone(), ops[1].clone()).unwrap(),
@@ -28,9 +32,10 @@ pub fn build(kind: &str, ops: &[Expr], case: &J) -> Result<Expr, String> {
 /// the expected outcome of the built expression, from the spec's outcome of the cell
 pub fn expected(kind: &str, case: &J) -> J {
     let x = &case["x"];
-    if kind == "if" && x["ok"].as_bool() == Some(true) {
+    if kind.starts_with("if") && x["ok"].as_bool() == Some(true) {
         let b = x["v"]["b"].as_bool().unwrap_or(false);
-        json!({"ok": true, "v": to_model(&Value::Int(if b { 1 } else { 2 }))})
+        let v = match kind { "if:tf" => Value::Bool(b), "if:ft" => Value::Bool(!b), "if:same" => Value::Int(7), _ => Value::Int(if b { 1 } else { 2 }) };
+        json!({"ok": true, "v": to_model(&v)})
     } else {
         x.clone()
     }
@@ -59,6 +64,16 @@ pub fn replay_case_again(case: &J, rep: &mut Report) {
 
 fn replay_case_pass(case: &J, rep: &mut Report, again: bool) {
     let kind = case["k"].as_str().unwrap_or("?").to_string();
+    if kind == "if" {
+        for variant in ["if:tf", "if:ft", "if:same"] {
+            replay_kind(case, variant, rep, true);
+        }
+    }
+    replay_kind(case, &kind, rep, again)
+}
+
+fn replay_kind(case: &J, kind: &str, rep: &mut Report, again: bool) {
+    let kind = kind.to_string();
     let exp = expected(&kind, case);
     if exp.get("ap").and_then(|a| a.as_str()) == Some("unmodelled") {
         if !again {
